@@ -118,6 +118,7 @@ type Shared struct {
 	funcs    map[string]bool // functions executed (outside harness/rt)
 	redirect map[string]*ssa.Function
 	redirSeen map[string]bool
+	observe   map[string]*ssa.Function
 	buildMu  sync.Mutex
 }
 
@@ -1413,6 +1414,9 @@ func (in *Interp) callFunc(caller *frame, fn *ssa.Function, args []Value, env []
 	if r, ok := in.sh.redirect[name]; ok && r != fn {
 		// a harness-provided replacement with the same parameter list (receiver first)
 		return in.callSSA(caller, r, args, nil)
+	}
+	if o, ok := in.sh.observe[name]; ok && o != fn {
+		in.callSSA(caller, o, args, nil)
 	}
 	if name == "strconv.ParseUint" && len(args) == 3 {
 		if s, ok := args[0].(Str); ok && s.num != nil {
